@@ -203,7 +203,7 @@ func (n *node) ensureStream(term int64) bool {
 	if n.stream != nil && n.sterm == term && n.stream.Context().Err() == nil {
 		return true
 	}
-	st, err := n.net.GetReplicateStream(context.Background(), "n2", ns, shard, term)
+	st, err := n.net.Provider().GetReplicateStream(context.Background(), "n2", ns, shard, term)
 	if err != nil {
 		return false
 	}
@@ -353,7 +353,7 @@ func (n *node) step(op int) bool {
 				return false
 			}
 		}
-		st, err := n.net.GetReplicateStream(context.Background(), "n2", ns, shard, t)
+		st, err := n.net.Provider().GetReplicateStream(context.Background(), "n2", ns, shard, t)
 		if err != nil {
 			return true
 		}
@@ -498,7 +498,7 @@ func (n *node) step(op int) bool {
 		}
 		_, woBefore := n.walLast()
 		ctx, cancel := context.WithCancel(context.Background())
-		cl, err := n.net.SendSnapshot(ctx, "n2", ns, shard, t)
+		cl, err := n.net.Provider().SendSnapshot(ctx, "n2", ns, shard, t)
 		if err != nil {
 			cancel()
 			return true
